@@ -1361,8 +1361,18 @@ def _check_feed(run, repo, world):
     from ..inline import acopy as _acp
     # helpers (a method that queues a report for the watcher) inlined, local
     # aliases (`mode = data[0]`) written out
-    fn = _acp(_expand(world, c, c.methods["_handle_read"][1],
-                      aliases="params"))
+    fn0 = c.methods["_handle_read"][1]
+    if any(isinstance(n, ast.Attribute) and n.attr == "get"
+           for n in ast.walk(fn0)):
+        # handlers picked from a class-level table by the report's mode
+        from ..unroll import expand_table_lookups, class_table_resolver
+        from ..normal import normalise as _norm
+        fx = _acp(_norm(fn0, world, HID, c, inline=False, aliases=True))
+        rt_, nn_ = class_table_resolver(world, c, HID)
+        if expand_table_lookups(fx, rt_, nn_):
+            ast.fix_missing_locations(fx)
+            fn0 = fx
+    fn = _acp(_expand(world, c, fn0, aliases="params"))
     _dds(fn)
     ast.fix_missing_locations(fn)
     fn = _astq.propagate(fn)
